@@ -50,7 +50,7 @@ theorem fragS_arrayValue (scope : List Sym) (args : List Term) (p : Payload) (τ
     | nil => simp at hts
     | cons d rest =>
       simp only [nodeOK, Bool.and_eq_true] at hok
-      obtain ⟨hsidx, hse⟩ := hok
+      obtain ⟨hsidx, hse, _⟩ := hok
       simp only [nodeSexp, List.map_cons]
       apply fragS_storeChain sp hsp env ρ
       · -- the sort
@@ -64,12 +64,7 @@ theorem fragS_arrayValue (scope : List Sym) (args : List Term) (p : Payload) (τ
       · exact hargs d (by simp)
       · intro kv hkv
         obtain ⟨e, he, rfl⟩ := List.mem_map.1 hkv
-        have hin : e ∈ (pairsOf rest).zip (pairsOf (rest.map toS)) := by
-          cases srt
-          · exact he
-          · exact mem_sortBy _ _ _ he
-        have h2 : e.2 ∈ pairsOf (rest.map toS) := (List.of_mem_zip (a := e.1) (b := e.2) hin).2
-        obtain ⟨m1, m2⟩ := mem_pairsOf _ _ h2
+        obtain ⟨m1, m2⟩ := mem_avEnts srt rest toS e he
         obtain ⟨a1, ha1, e1⟩ := List.mem_map.1 m1
         obtain ⟨a2, ha2, e2⟩ := List.mem_map.1 m2
         rw [← e1, ← e2]
